@@ -131,8 +131,12 @@ func TestC04Probe(t *testing.T) {
 			}
 		}
 		inWindow := time.Since(windowStart) < cd
-		// quiet period: no further operation
-		deadline := time.Now().Add(300*cd + 200*time.Millisecond)
+		// quiet period: no further operation. The wait ends as soon as the prefix is gone; otherwise, once the minimum
+		// window has passed, as soon as the stuck state is CONFIRMED (cleanup goroutine parked in Cond.Wait, no cooldown
+		// timer goroutine, >=100 canary sleeps of one cooldown each completed); a hard cap of 20 s without either is
+		// inconclusive (a loaded machine never turns into a verdict).
+		minWindow := time.Now().Add(300*cd + 200*time.Millisecond)
+		hardCap := time.Now().Add(20 * time.Second)
 		var canary atomic.Int64
 		stopCanary := make(chan struct{})
 		go func() {
@@ -146,11 +150,26 @@ func TestC04Probe(t *testing.T) {
 				canary.Add(1)
 			}
 		}()
-		freed := false
-		for time.Now().Before(deadline) {
+		freed, parked, timerAlive := false, false, false
+		for time.Now().Before(hardCap) {
 			if b.Size() == want {
 				freed = true
 				break
+			}
+			if time.Now().After(minWindow) && canary.Load() >= 100 {
+				parked, timerAlive = false, false
+				for _, g := range vkit.Goroutines() {
+					if strings.Contains(g.Stack, "(*Buffer).cleanup.func1.1") {
+						timerAlive = true
+					}
+					if strings.Contains(g.Stack, "go-bigbuff.(*Buffer).cleanup(") && strings.Contains(g.State, "sync.Cond.Wait") {
+						parked = true
+					}
+				}
+				if parked && !timerAlive && b.Size() != want {
+					break // confirmed
+				}
+				time.Sleep(20 * cd)
 			}
 			time.Sleep(cd / 2)
 		}
@@ -158,16 +177,6 @@ func TestC04Probe(t *testing.T) {
 		size := b.Size()
 		trace = append(trace, fmt.Sprintf("hookHit=%d inWindow=%v size=%d want=%d", hit.Load(), inWindow, size, want))
 		if !freed && size != want {
-			// confirm that nothing is in flight any more
-			parked, timerAlive := false, false
-			for _, g := range vkit.Goroutines() {
-				if strings.Contains(g.Stack, "go-bigbuff.(*Buffer).cleanup.func1.1") || strings.Contains(g.Stack, "(*Buffer).cleanup.func1.1") {
-					timerAlive = true
-				}
-				if strings.Contains(g.Stack, "go-bigbuff.(*Buffer).cleanup(") && strings.Contains(g.State, "sync.Cond.Wait") {
-					parked = true
-				}
-			}
 			for _, c := range cons {
 				_ = c.Rollback()
 				_ = c.Close()
